@@ -281,7 +281,7 @@ Consume ==
          \* it needs at least two supplied positions there (the cross-position form of the artefact)
          ks == IF co THEN KFStep(st)
                ELSE "C10" \in Props /\
-                    \/ Len(st.call.pos) >= 2 /\ KFStep(st)
+                    \/ Len(st.call.pos) + Len(st.call.kwn) >= 2 /\ KFStep(st)
                     \/ KF_pull_rank(W, MOf(st), st.call)
      IN
        /\ bad' = IF c # ""
